@@ -15,9 +15,11 @@
 
   The proof composes four inductions: `sim` (machine ⊑ big-step), `big_sound` (results), `big_count` (the eviction
   counters `2 × paths` never run out, with ghost completion flags), `node_halts` (termination) and `big_raised`
-  (exceptions).  Graphs *with* cache edges are covered by the rely form in `CM.Props.C04`.
+  (exceptions).  Graphs *with* cache edges: `compiled_value_cached` (the same five inductions generalised:
+  `big_sound_c`, `big_inv_c`, `node_halts_c`, `big_raised_c`), relative to sound stores.
 -/
 import CM.Proofs.Check
+import CM.Proofs.CorrectC
 namespace CM.C01
 open CM
 
@@ -82,6 +84,16 @@ theorem no_internal_error (g : Graph) (ok : GraphOK g) (env : String → Option 
   cases hspec with
   | inl h => obtain ⟨_, h1, _⟩ := h; cases h1
   | inr h => exact hd h
+
+/-- **C01 with cache edges.**  For graphs that may contain `CacheEdge`s, relative to stores that are sound for a family
+with faithful hashes (see `CM.Props.C04`, `CM.Props.C05`): the call stops, returns the cache-free value, raises only a
+scheduled user exception or the denotation's own error — never an internal failure of the machine — and keeps the
+stores sound. -/
+theorem compiled_value_cached (F : Fam) (g : Graph) (ok : GraphOKC g) (env : String → Option Val) (w : World) (hc : CallOK g env)
+    (hF : F g (denCfgOf env w)) (hst : StoreSound F w) (hlog : w.log = []) :
+    ∃ N o steps, (∀ fuel, N ≤ fuel → g.call env w fuel = some (o, steps)) ∧
+      FullSpec F g (denCfgOf env w) (!w.failAt.isEmpty) o :=
+  call_correct_c F g ok env w hc hF hst hlog
 
 /-! ### the hypotheses are satisfiable, and the conclusion is not trivial -/
 
